@@ -30,7 +30,9 @@ func init() {
 	}
 }
 
-var privateUseAlgs = []int64{-65536, -65537, -70000, 0x7fffffff, -1 << 40, 1 << 50, 5, -260}
+// 0 is the "reserved" algorithm: a custom signer whose Algorithm() was never
+// set reports it
+var privateUseAlgs = []int64{-65536, -65537, -70000, 0x7fffffff, -1 << 40, 1 << 50, 5, -260, 0, 0}
 
 // c04AlgValue draws the alg header value.  kind: "match", "other-builtin",
 // "private", "text", "wrongtype", "absent".
